@@ -34,7 +34,7 @@ def tclass(st, ft):
 def one(ctx, x, st, ft, method, tag, carrier="arr") -> None:
     inp = (gen.arr(x) if carrier == "arr" else list(x) if carrier == "list-none" else gen.nanlist(x) if carrier == "list-nan"
            else gen.carried(ctx.rng, x, poisons=(0.0, 100.0, -100.0, 1.0), p_masked=1.0))
-    kw = {"inp": inp, "suspect_threshold": st, "fail_threshold": ft, "method": method}
+    kw = {"inp": inp, "suspect_threshold": gen.ptype(ctx.rng, st), "fail_threshold": gen.ptype(ctx.rng, ft), "method": method}
     o, adm = client.expect(ctx, "C09", "qartod.spike_test", kw,
                            lambda: models.spike(x, st, ft, method),
                            logical={"x": x, "suspect_threshold": st, "fail_threshold": ft, "method": method,
@@ -66,7 +66,7 @@ def run(ctx) -> None:
 
     rng = ctx.rng
     for _ in range(ctx.pick(1200, 6000)):
-        n = rng.choice([3, 4, 5, 6, 8, 13, 40])
+        n = rng.choice([3, 4, 5, 6, 8, 13, 40, 40, 101, ctx.pick(300, 1500)])
         x = gen.series(rng, n, pmiss=rng.choice([0, 0.1, 0.3]))
         method = rng.choice(["average", "differential"])
         ds = sorted({models.spike_d(x[k - 1], x[k], x[k + 1], method) for k in range(1, n - 1)
